@@ -39,7 +39,7 @@ RULE = ('random axially symmetric lenses from vkit.lens.gen_axial (2-8 interface
         'Coddington oracle covers planes, spheres, conics and even aspheres, refracting and reflecting; '
         'a case is non-trivial when the lens has >= 2 powered surfaces and the analysis returned >= 5 finite samples; '
         'distinct = distinct case hash')
-TIERS = {'quick': dict(shards=12, cases=40), 'thorough': dict(shards=16, cases=900)}
+TIERS = {'quick': dict(shards=12, cases=40), 'thorough': dict(shards=16, cases=1400)}
 MIN_NONTRIVIAL = {'quick': 250, 'thorough': 5000}
 MIN_EVALS = {'spot-data': 60, 'spot-centroid': 30, 'spot-rms-radius': 30, 'spot-geometric-radius': 30,
              'rms-spot-vs-field': 25, 'ray-fan': 60, 'ray-fan-axis': 25,
@@ -84,6 +84,7 @@ M_IDX = 'analysis-primary-index-into-caller-list'
 M_HA = 'distortion-height-field-as-angle'
 M_GX = 'grid-x-flip-height-field'
 M_GN = 'grid-max-nan-centre-point'
+M_DUP = 'fan-duplicate-wavelength-key'
 
 FAMILIES = ['spot', 'rmsfield', 'fan', 'ee', 'distortion', 'grid', 'fieldcurv', 'pupil', 'operands']
 ABCD_FAMILIES = ('distortion', 'grid', 'pupil')
@@ -231,6 +232,8 @@ def _params(rng, family, spec):
         p['num_fields'] = int(rng.integers(2, 12))
     if family in ('fan', 'pupil'):
         p['num_points'] = int(rng.integers(3, 70))
+    if family == 'fan' and rng.random() < 0.06:
+        p['wavelengths'], p['wl_mode'] = [lw[0], lw[-1], lw[0]], 'duplicate-value'
     if family == 'ee':
         p['fields'] = _pick_fields(rng, spec)
         r = rng.random()
@@ -575,7 +578,15 @@ def fam_fan(ctx, rec, c):
             sc = max(1.0, abs(yref))
             got = np.concatenate([np.asarray(e['x'], float), np.asarray(e['y'], float)])
             want = np.concatenate([x - xref, y - yref])
-            rec.close('ray-fan', got, want, tol_fan, scale=sc,
+            mult = W.count(w)
+            fl, alt = (), None
+            if mult > 1:
+                # class: the same wavelength value occurs twice in the list; as built the data is keyed by
+                # str(wavelength), the entries collide and the reference is subtracted once per occurrence
+                fl = (M_DUP,)
+                alt = np.concatenate([x - mult * xref, y - mult * yref])
+                rec.cls('fan-duplicate-wavelength')
+            rec.close('ray-fan', got, want, tol_fan, scale=sc, alt=alt, flags=fl,
                       msg=f'ray fan (field {f}, wavelength {w}) != line_x/line_y image coordinates minus the '
                           f'primary-wavelength chief ray', detail=dict(xref=xref, yref=yref))
             rec.check('ray-fan-intensity', bool(np.array_equal(e['intensity_x'], ix, equal_nan=True)
